@@ -409,7 +409,10 @@ def oracle(w: Any, params: Any) -> List[dict]:
                 sid = 1 + 2 * int(inst.scope["path"][2:])
                 st = rec.client.h2.streams.get(sid)
                 if st is None or not st["ended"] or st["body"] != b"ok" or st["status"] != 200:
-                    out.append(V("served-request-truncated", f"{'h2' if mode in PUSH_MODES else mode}:max{mx}",
+                    # (the known finding is about the ONE request HTTP/2 allows past the limit; a request within the
+                    # limit that goes unanswered is something else and gets its own key)
+                    within = ":within-limit" if mode not in PUSH_MODES and i < mx else ""
+                    out.append(V("served-request-truncated", f"{'h2' if mode in PUSH_MODES else mode}:max{mx}{within}",
                                  f"{mode}: request {i} (stream {sid}) reached the application but its response is {st}"))
         else:
             rs = rec.client.h1.responses
